@@ -483,8 +483,8 @@ PadAfter(A, L, fmt) == LET p == IF IsBrFmt(fmt) THEN 312 ELSE 8 IN IF Mode = "si
 InsLen(args) == 2 + 2 * Cardinality({j \in 1..Len(args) : HasExt(args[j])})
 (* added after the second seeding round: "locp" a multi-digit local label in a complex operand '10+2' (branch operands only:
    the first number is the label);  "numlocc" '2+1:' (a literal plus a local label written with its colon);  "parlbl" '(L)+2' *)
-LabelOffset(sh) == CASE sh \in {"lblp", "locp", "numlocc", "parlbl"} -> -2 [] sh = "lblm" -> 4 [] sh \in {"lbl", "loc", "locc", "lblc"} -> 0 [] OTHER -> 0
-UsesLabel(sh) == sh \in {"lbl", "lblp", "lblm", "loc", "locc", "locp", "numlocc", "parlbl", "lblc"}   \* "lblc": a symbol defined by assignment to the label
+LabelOffset(sh) == CASE sh \in {"lblp", "locp", "numlocc", "parlbl", "plbl"} -> -2 [] sh = "lblm" -> 4 [] sh \in {"lbl", "loc", "locc", "lblc"} -> 0 [] OTHER -> 0
+UsesLabel(sh) == sh \in {"lbl", "lblp", "lblm", "loc", "locc", "locp", "numlocc", "parlbl", "lblc", "plbl"}   \* "plbl": the number first, '2+label';  "lblc": a symbol defined by assignment to the label
 Shaped(f) == IsRel(f) \/ f.k = "Br"
 TargetOf(f, A) == IF f.k = "Br" THEN BrTarget(f, A) ELSE RelTarget(f, A)
 LabelPlan(sh, f, A, L, fmt) ==
@@ -497,6 +497,7 @@ ShapeOK(sh, f, A, L, fmt) ==
       [] sh = "dec"    -> t >= 0
       [] sh = "dot"    -> TRUE
       [] sh = "dotdec" -> TRUE
+      [] sh = "plbl" -> ~isBr /\ (p.a <= A \/ p.a >= A + L) /\ p.a \in 0..65535
       [] sh \in {"lbl", "lblp", "lblm", "lblc"} -> (p.a <= A \/ p.a >= A + L) /\ p.a \in 0..65535 /\ (p.near \/ ~isBr)
       [] sh = "loc"    -> isBr /\ (p.a <= A \/ p.a >= A + L) /\ p.near
       [] sh = "locc"   -> (p.a <= A \/ p.a >= A + L) /\ p.near
